@@ -68,6 +68,7 @@ type World struct {
 	r       *simrt.Rand
 	ctx     context.Context
 	cancel  context.CancelFunc
+	resolver *scriptedResolver
 }
 
 type Srv struct {
@@ -175,6 +176,7 @@ func (w *World) boot() bool {
 			Chord:           spec.WrapRetryKV(h.Node, 200*time.Millisecond, 4),
 			TunnelTransport: s.TunT, ChordTransport: s.ChordT,
 			Apex: "apex.example.com", Acme: "acme.example.com",
+			Resolver: w.resolver,
 		})
 		router := transport.NewStreamRouter(zap.NewNop(), s.ChordT, s.TunT)
 		router.Accept(w.ctx)
@@ -283,9 +285,23 @@ func Run(t *testing.T, prop string, seed uint64, tier string, replay *hcommon.Re
 			SkipYield: func(site string, draw func() uint64) bool {
 				return strings.HasPrefix(site, "chord/local.go:") && draw()&0xffffffff < skip
 			}}, func() {
-			w := &World{plan: p, res: &res, r: simrt.NewRand(simrt.Mix(seed, 0x776f726c64))}
+			w := &World{plan: p, res: &res, r: simrt.NewRand(simrt.Mix(seed, 0x776f726c64)), resolver: &scriptedResolver{answers: map[string]string{}, flip: map[string][]string{}}}
 			w.ctx, w.cancel = context.WithCancel(context.Background())
 			defer w.cancel()
+			if prop == "C42" {
+				w.checkC42()
+				return
+			}
+			if prop == "C48" || prop == "C49" {
+				if w.bootRing() {
+					if prop == "C48" {
+						w.checkC48()
+					} else {
+						w.checkC49()
+					}
+				}
+				return
+			}
 			if !w.boot() {
 				return
 			}
@@ -298,6 +314,10 @@ func Run(t *testing.T, prop string, seed uint64, tier string, replay *hcommon.Re
 				w.checkC28()
 			case "C51":
 				w.checkC51()
+			case "C29":
+				w.checkC29(w.resolver)
+			case "C27":
+				w.checkC27()
 			}
 		})
 	})
